@@ -51,5 +51,5 @@ def nest_tls_rule(res, fx, rule, file_res):
         res.ob(rule, '%s:%s' % (gv['file'], gv['line']), 'the global nesting counter %s is thread-local' % gv['q'], gv.get('tls') == 1, function=gv['q'], key='%s|%s|thread-local' % (rule, gv['q']),
                message='the recursion-depth counter %s is shared by all threads: the nesting depths of concurrent parses add up (valid Messages are rejected once the sum reaches the limit) and the '
                        'unsynchronised updates make the count drift, so the guard neither bounds the recursion of one thread nor admits what it should' % gv['q'])
-    if not nguards:
-        raise F.AnalysisBroken('%s: no namespace-scope NestCount found (the Message parsers keep their nesting depth in one)' % rule)
+    # no such counter: nothing to require here — whether the parser recursion is bounded at all is decided by the recursion rule itself (R-REC reports the unguarded cycle)
+    return len(seen_g)
